@@ -1521,7 +1521,7 @@ def rule_skip_guard(ctx: Ctx, rid="C11.SKIP-GUARD"):
     the fingerprint of the *whole argument text* (an injective function of it: the text itself
     or a cryptographic hash of its encoding)."""
     from . import liferules as LF
-    if LF.decide(ctx, rid, ("exact", "recorded"), construct=f"{EV}:ExperimentEvaluator.recompile[skip]",
+    if LF.decide(ctx, rid, ("exact", "recorded", "unparsed"), construct=f"{EV}:ExperimentEvaluator.recompile[skip]",
                  ok_text="the skip decision compares an exact fingerprint of the whole text (the text or a full hashlib digest of its "
                          "encoding); recompiling the accepted text again calls and stores nothing"):
         return
